@@ -431,6 +431,8 @@ func newWide(variant string, xhash bool, capacity int64, n uint64, kk int) wideA
 // ---- running one call with panic recovery -----------------------------------------------
 
 func doOp(c lruAPI, o opRec) (out outcome) {
+	noteCall(o)
+	defer beat()
 	defer func() {
 		if r := recover(); r != nil {
 			out = outcome{Panic: true}
@@ -480,6 +482,7 @@ func doOp(c lruAPI, o opRec) (out outcome) {
 }
 
 func doWideOp(c wideAPI, o opRec) (out outcome) {
+	defer beat()
 	defer func() {
 		if r := recover(); r != nil {
 			out = outcome{Panic: true}
